@@ -40,7 +40,10 @@ func (n *MixedValueNode) AddConstraint(c constraint.Constraint) {
 	switch t := c.(type) {
 	case *constraint.TypeConstraint:
 		n.addTypeConstraint(t)
-		n.types = []string{t.Bytes().String()}
+		if t.Bytes().Unquote().String() != json.TypeMixed.String() {
+			n.types = []string{t.Bytes().String()}
+		}
+		// {type: "mixed"} names no type: the types of the union are kept.
 
 	case *constraint.Or:
 		n.addOrConstraint(t)
